@@ -313,7 +313,12 @@ impl Prop for C09T {
                         // values (number and text verbatim) and the empty answer
                         Some(Error::QueueOverflow) => want_resp.extend_from_slice(b"-350,\"Queue overflow\"\n"),
                         Some(Error::Custom(code, text)) => want_resp.extend_from_slice(format!("{code},\"{text}\"\n").as_bytes()),
-                        // other standard errors: number and description as the library maps them
+                        // standard errors the workloads produce: the standard's number and text
+                        Some(e) if simcore::world::STANDARD_TEXT.iter().any(|(n, _)| *n == e.number()) => {
+                            let (n, t) = simcore::world::STANDARD_TEXT.iter().find(|(n, _)| *n == e.number()).unwrap();
+                            want_resp.extend_from_slice(format!("{n},\"{t}\"\n").as_bytes())
+                        }
+                        // any other standard error: number and description as the library maps them
                         Some(e) => want_resp.extend(lib_line_pair(e.number(), e.into())),
                         None => {
                             st.bump("reach:read_empty_queue");
